@@ -18,6 +18,7 @@ use std::sync::Arc;
 use std::time::Duration;
 
 pub mod disk;
+pub mod docgen;
 pub mod requests;
 
 pub struct LsOpts {
